@@ -384,7 +384,11 @@ def _compare_law(out: Outcome, want: dict, got: dict, p: dict):
             elif t == 'ang':
                 try:
                     gm = ref_matrix(*_nums(gv))
-                    ok = all(_close(val[i][j], gm[i][j], 2e-5) for i in range(3) for j in range(3))
+                    # under the engine's gimbal-lock threshold (forward axis within 0.001 of vertical) the conversion to
+                    # Euler angles deliberately drops the yaw/roll split: accurate to twice that horizontal length (C04's bound)
+                    hlen = math.hypot(val[0][0], val[0][1])
+                    tol = 2e-5 + (2.0 * hlen if hlen < 0.001 else 0.0)
+                    ok = all(_close(val[i][j], gm[i][j], tol) for i in range(3) for j in range(3))
                 except Exception:
                     ok = False
                 if not ok:
